@@ -128,6 +128,7 @@ def check(ctx):
                 break
 
     facade_cutoff_recovery(ctx, np.random.default_rng(ctx.seed + 31))
+    coincident_sizes_recovery(ctx, np.random.default_rng(ctx.seed + 33))
     pair_model_recovery(ctx, np.random.default_rng(ctx.seed + 32))
     # ---- recovery of ground truths
     nbatch_settings = [None] if ctx.quick else [None, 2]
@@ -342,6 +343,71 @@ def facade_cutoff_recovery(ctx, rng):
                         ctx.fail("oracle", "C05/oracle/recovery-facade-cutoff", f"{sc['name']} cutoff {cfg} orders {orders}: admissible fc{m} (basis set of order {m} built with its own radius) is not recovered through the facade (relative error {err:.2e})",
                                  replay={**rep, "order": m, "rel_err": err}, has_input=True)
                         break
+
+
+def coincident_sizes_recovery(ctx, rng):
+    """Recovery for solver combinations whose orders happen to have arrays of EQUAL size (the same number of compressed elements, or
+    the same number of basis vectors): per-order cutoffs are scanned shell by shell for such coincidences, and every coincidence
+    found is fitted through the facade.  (Bookkeeping keyed by a size instead of by the order works for all other inputs.)"""
+    from symfc import Symfc
+    from symfc.basis_sets import FCBasisSetO2, FCBasisSetO3, FCBasisSetO4
+    from gens import atoms_of, base_cells, make_supercell
+    from reference import min_image_distances
+
+    classes = {2: FCBasisSetO2, 3: FCBasisSetO3, 4: FCBasisSetO4}
+    pmm2 = {"lattice": np.diag([4.12, 2 * 4.68, 5.12]), "numbers": np.array([1, 2, 1, 1, 2, 1]), "name": "ortho-Pmm2-3atoms-1x2x1",
+            "positions": np.array([[0.0, 0.0, 0.0], [0.75, 0.25, 0.5], [0.0, 0.25, 0.0], [0.0, 0.5, 0.0], [0.75, 0.75, 0.5], [0.0, 0.75, 0.0]])}
+    cells = [pmm2, make_supercell(base_cells()["mono_P"], (2, 1, 1), rng=rng, shuffle=True)]
+    if not ctx.quick:
+        cells += [make_supercell(base_cells()["tri2_P1"], (2, 1, 1), rng=rng, shuffle=True), make_supercell(base_cells()["hcp"], (1, 1, 2), rng=rng, shuffle=True)]
+    found = 0
+    for sc in cells:
+        at = atoms_of(sc)
+        N = len(sc["numbers"])
+        dist = min_image_distances(np.asarray(sc["lattice"], float), np.asarray(sc["positions"], float))
+        shells = sorted(set(np.round(dist[dist > 1e-8], 6).tolist()))
+        mids = [None] + [(a + b) / 2 for a, b in zip(shells[:-1], shells[1:])][: (5 if ctx.quick else 8)]
+        table = {}          # (order, cutoff) -> (basis object, sizes)
+        for m in (2, 3, 4):
+            for c in mids:
+                try:
+                    b = classes[m](at, cutoff=c).run()
+                except (IndexError, ValueError):
+                    continue
+                nb = b.basis_set.shape[1]
+                if 0 < nb <= 300:
+                    table[(m, c)] = (b, {int(b.compact_compression_matrix.shape[1]), int(nb)})
+        pairs = [(k1, k2) for k1 in table for k2 in table if k1[0] < k2[0] and (k1[0], k2[0]) != (2, 4) and table[k1][1] & table[k2][1]]
+        rng.shuffle(pairs)
+        for (m1, c1), (m2, c2) in pairs[: (3 if ctx.quick else 10)]:
+            found += 1
+            orders = (m1, m2)
+            truth = {}
+            for m, c in ((m1, c1), (m2, c2)):
+                b = table[(m, c)][0]
+                F = np.asarray(b.compression_matrix @ b.basis_set)
+                truth[m] = (F @ rng.normal(size=F.shape[1])).reshape((N,) * m + (3,) * m)
+            ncoef = sum(table[k][0].basis_set.shape[1] for k in ((m1, c1), (m2, c2)))
+            n = 3 * int(np.ceil(ncoef / (3 * N))) + 8
+            d = rng.normal(size=(n, N, 3)) * 0.1
+            f = forces_from_fc(truth, d)
+            cfg = {m: c for m, c in ((m1, c1), (m2, c2)) if c is not None}
+            ctx.case({"cell": sc["name"], "coincident_sizes": sorted(table[(m1, c1)][1] & table[(m2, c2)][1]), "orders": list(orders), "cutoff": {str(k): round(v, 4) for k, v in cfg.items()}}, nontrivial=True)
+            ctx.count("recovery-coincident-sizes")
+            rep = {"cell": sc["name"], "lattice": np.asarray(sc["lattice"]).tolist(), "positions": np.asarray(sc["positions"]).tolist(), "numbers": [int(z) for z in sc["numbers"]],
+                   "cutoff": {str(k): v for k, v in cfg.items()}, "orders": list(orders)}
+            try:
+                o = Symfc(at, displacements=d, forces=f, cutoff=dict(cfg) or None).run(orders=list(orders), is_compact_fc=False)
+            except np.linalg.LinAlgError:
+                ctx.count("skipped-singular")
+                continue
+            for m in orders:
+                err = float(np.abs(o.force_constants[m] - truth[m]).max() / max(np.abs(truth[m]).max(), 1e-300))
+                if not err <= 1e-6:
+                    ctx.fail("oracle", "C05/oracle/recovery-coincident-sizes", f"{sc['name']} cutoff {cfg} orders {orders} (both orders have an array of size {sorted(table[(m1, c1)][1] & table[(m2, c2)][1])}): admissible fc{m} is not recovered (relative error {err:.2e})",
+                             replay={**rep, "order": m, "rel_err": err}, has_input=True)
+                    break
+    ctx.require("the scan found solver combinations whose orders have arrays of equal size", found >= 1)
 
 
 def pair_model_recovery(ctx, rng):
